@@ -21,6 +21,7 @@ import LdkModel.Proofs.GossipRgsIdem
 import LdkModel.Proofs.GossipRgsIdem2
 import LdkModel.Proofs.GossipPersist
 import LdkModel.Model.GossipOrder
+import LdkModel.Model.GossipRelay
 import LdkModel.Generated.TlvSchemas
 namespace Ldk.C17
 open Ldk Ldk.Gossip
@@ -150,6 +151,112 @@ theorem forged_channel_announcement_rejected (g : Graph) (a : ChanAnn) (s : Gen.
 
 example : ∃ g a s, a.verify = true ∧ a.flag s = false ∧ (Impl.applyChanAnn g a).2 = .reject .badSig :=
   ⟨Graph.empty, ⟨7, 1, 2, false, true, true, true, true, true, false, .noLookup, 100⟩, .bitcoin_signature_2, rfl, rfl, by decide⟩
+
+/-! ### what is forwarded and what is served to peers (round 5b; decisions: Generated/GossipRelay.lean) -/
+
+/-- P2PGossipSync::handle_*: a message is forwarded to peers ONLY IF it came through the signature-verifying handler,
+    the graph accepted it, and the (translated) relay expression on its excess data holds; for a channel_announcement
+    that means all four signatures are made by their own announced keys. Nothing delivered through an unsigned entry
+    point is ever forwarded. All graphs, all messages, all excess lengths. -/
+theorem relayed_only_if_accepted_and_verified (g : Graph) (m : Msg) (e ea : Nat)
+    (h : Impl.relayed g m e ea = true) :
+    verifyRequested m = true ∧ (Impl.applyMsg g m).2 = .accept ∧ Impl.relayExpr m e ea = true ∧
+    (∀ a, m = .chanAnn a → ∀ s, a.flag s = true) := by
+  unfold Impl.relayed at h
+  simp only [Bool.and_eq_true, decide_eq_true_eq] at h
+  refine ⟨?_, h.1.2, h.2, ?_⟩
+  · cases m <;> exact h.1.1
+  · intro a hm s
+    subst hm
+    cases hs : a.flag s
+    · have hv : a.verify = true := h.1.1
+      obtain ⟨_, r, hr⟩ := forged_channel_announcement_rejected g a s hv hs
+      have hacc := h.1.2
+      simp only [Impl.applyMsg] at hacc
+      rw [hr] at hacc
+      cases hacc
+    · rfl
+
+theorem unsigned_never_relayed (g : Graph) (m : Msg) (e ea : Nat) (h : verifyRequested m = false) :
+    Impl.relayed g m e ea = false := by
+  unfold Impl.relayed
+  cases m <;> simp_all [Impl.msgVerify, verifyRequested]
+
+example : ∃ g m, Impl.relayed g m 0 0 = true ∧ Impl.relayed g m 1025 0 = false :=
+  ⟨Graph.empty, .chanAnn ⟨7, 1, 2, false, true, true, true, true, true, true, .noLookup, 100⟩, by decide, by decide⟩
+
+/-- the relay limit (translated): forwarded iff the excess data fit MAX_EXCESS_BYTES_FOR_RELAY = 1024 (node
+    announcements: both parts and their sum) -/
+theorem relay_limit (e ea : Nat) :
+    Impl.relayOfKind .chanAnn e ea = decide (e ≤ 1024) ∧ Impl.relayOfKind .chanUpd e ea = decide (e ≤ 1024) ∧
+    Impl.relayOfKind .nodeAnn e ea = decide (e + ea ≤ 1024) := by
+  simp only [Impl.relayOfKind, Gen.handleChanAnnRelay, Gen.handleChanUpdRelay, Gen.handleNodeAnnRelay, MAX_EXCESS_BYTES_FOR_RELAY]
+  refine ⟨rfl, rfl, ?_⟩
+  by_cases h : e + ea ≤ 1024
+  · have h1 : e ≤ 1024 := by omega
+    have h2 : ea ≤ 1024 := by omega
+    simp [h, h1, h2]
+  · simp [h]
+
+/-- get_next_channel_announcement, every graph and starting point: what is served is a channel of the graph at or
+    after the starting point that HAS its (signed) announcement message, and it is the FIRST such channel: no announced
+    channel between the starting point and the served one is skipped. Hence iterating with start := served + 1 serves
+    every announced channel exactly once, in ascending order (keys are strictly increasing). -/
+theorem served_channel_is_first_announced (g : Graph) (start k : Nat) (c : ChanInfo)
+    (h : Impl.nextChanAnn g start = some (k, c)) :
+    start ≤ k ∧ c.hasMsg = true ∧ g.channels.get k = some c ∧
+    ∀ p ∈ g.channels.l, start ≤ p.1 → p.1 < k → p.2.hasMsg = false := by
+  unfold Impl.nextChanAnn at h
+  obtain ⟨hp, as, bs, hl, has⟩ := List.find?_eq_some_iff_append.1 h
+  simp only [Gen.nextChanInRange, Gen.nextChanServes, Bool.and_eq_true, decide_eq_true_eq] at hp
+  have hsorted := g.channels.sorted
+  rw [hl] at hsorted
+  have hmem : (k, c) ∈ g.channels.l := by rw [hl]; simp
+  refine ⟨hp.1, hp.2, Impl.SMap.get_of_mem g.channels hmem, ?_⟩
+  intro p hpm hs hlt
+  rw [hl] at hpm
+  rcases List.mem_append.1 hpm with hin | hin
+  · have := has p hin
+    simp only [Gen.nextChanInRange, Gen.nextChanServes, Bool.not_eq_true', Bool.and_eq_false_iff, decide_eq_false_iff_not] at this
+    rcases this with h1 | h1
+    · exact absurd hs h1
+    · exact h1
+  · rcases List.mem_cons.1 hin with heq | hin'
+    · subst heq; exact absurd hlt (Nat.lt_irrefl _)
+    · have hp2 := (List.pairwise_append.1 hsorted).2.1
+      have := (List.pairwise_cons.1 hp2).1 p hin'
+      exact absurd hlt (Nat.lt_asymm this)
+
+/-- … and nothing is served iff no channel at or after the starting point has an announcement message -/
+theorem nothing_served_iff (g : Graph) (start : Nat) :
+    Impl.nextChanAnn g start = none ↔ ∀ p ∈ g.channels.l, start ≤ p.1 → p.2.hasMsg = false := by
+  unfold Impl.nextChanAnn
+  rw [List.find?_eq_none]
+  simp only [Gen.nextChanInRange, Gen.nextChanServes, Bool.and_eq_true, decide_eq_true_eq, not_and, Bool.not_eq_true]
+
+/-- get_next_node_announcement: the served node is strictly after the starting point and its stored announcement is
+    the `Relayed` (signed) variant; none iff there is no such node -/
+theorem served_node_is_relayed (g : Graph) (start : Option Nat) :
+    (∀ k ni, Impl.nextNodeAnn g start = some (k, ni) →
+      (∀ s, start = some s → s < k) ∧ ∃ a, ni.ann = some a ∧ a.relayed = true) ∧
+    (Impl.nextNodeAnn g start = none ↔
+      ∀ p ∈ g.nodes.l, Gen.nextNodeInRange start p.1 = true → (p.2.ann.map (·.relayed)).getD false = false) := by
+  constructor
+  · intro k ni h
+    unfold Impl.nextNodeAnn at h
+    have hp := List.find?_some h
+    simp only [Gen.nextNodeServes, Bool.and_eq_true] at hp
+    constructor
+    · intro s hs; subst hs; simpa [Gen.nextNodeInRange] using hp.1
+    · cases ha : ni.ann with
+      | none => simp [ha] at hp
+      | some a => exact ⟨a, rfl, by simpa [ha] using hp.2⟩
+  · unfold Impl.nextNodeAnn
+    rw [List.find?_eq_none]
+    simp only [Gen.nextNodeServes, Bool.and_eq_true, not_and, Bool.not_eq_true]
+
+example : Impl.nextChanAnn (Impl.step Graph.empty (.msg (.chanAnn ⟨7, 1, 2, false, true, true, true, true, true, true, .noLookup, 100⟩))).1 0
+    = some (7, ⟨1, 2, none, none, none, 100, true⟩) := by decide
 
 /-! ## currency -/
 
